@@ -212,9 +212,8 @@ pub fn build2(a: &OwnedTerm, b: &OwnedTerm) -> Vec<OwnedTerm> {
         map_of(vec![(a.clone(), b.clone())]),
         internal_fun(2, 1, 2, 3, vec![a.clone(), b.clone()]),
     ];
-    if !is_listy(b) {
-        out.push(OwnedTerm::ImproperList { elements: vec![a.clone()], tail: Box::new(b.clone()) });
-    }
+    // (also with a list as the tail: a redundant representation of a longer list, which must keep its value all the same)
+    out.push(OwnedTerm::ImproperList { elements: vec![a.clone()], tail: Box::new(b.clone()) });
     out
 }
 
@@ -229,9 +228,7 @@ pub fn build1(a: &OwnedTerm) -> Vec<OwnedTerm> {
 
 pub fn build3(a: &OwnedTerm, b: &OwnedTerm, c: &OwnedTerm) -> Vec<OwnedTerm> {
     let mut out = vec![OwnedTerm::List(vec![a.clone(), b.clone(), c.clone()]), OwnedTerm::Tuple(vec![a.clone(), b.clone(), c.clone()])];
-    if !is_listy(c) {
-        out.push(OwnedTerm::ImproperList { elements: vec![a.clone(), b.clone()], tail: Box::new(c.clone()) });
-    }
+    out.push(OwnedTerm::ImproperList { elements: vec![a.clone(), b.clone()], tail: Box::new(c.clone()) });
     out
 }
 
